@@ -115,8 +115,41 @@ static void large_cases(Harness &H) {
   }
 }
 
+// high orders (products of the order-10 example bases have order 20, their products with operators more): kernels whose
+// integer arithmetic on the coefficient index (shifts, factorials, powers) overflows only for long coefficient arrays
+static void high_order_cases(Harness &H) {
+  size_t n = 3;
+  auto pts = grid_family("nonuni", n);
+  Grid<S> g = mkgrid<S>(pts);
+  for_idx(std::index_sequence<11, 20, 27, 28, 29, 33, 40>{}, [&](auto OO) {
+    lf_cases<0, decltype(OO)::value>(H, "high:nonuni3", g, pts, n);
+    lf_cases<2, decltype(OO)::value>(H, "high:nonuni3", g, pts, n);
+  });
+  // bilinear form of two order-14 / order-20 splines against the linear form of the product (29 / 41 coefficients)
+  for (Win a : {Win{0, 3}, Win{1, 3}})
+    for (int pv = 0; pv < 3; pv++) {
+      if (!H.take()) continue;
+      H.begin(std::string("high:cross;o14,14;o20,20;") + wstr(a) + ";pv" + std::to_string(pv));
+      size_t K14 = a.nint() * 15, K20 = a.nint() * 21;
+      auto s14 = mkspline_p<S, 14>(g, a, pv == 0 ? K14 + 1 : pv == 1 ? K14 + 2 : K14 - 1), t14 = mkspline_p<S, 14>(g, Win{0, 3}, pv == 2 ? 14 : 30 + 2);
+      auto s20 = mkspline_p<S, 20>(g, a, pv == 0 ? K20 + 2 : pv == 1 ? K20 + 1 : K20 - 1), t20 = mkspline_p<S, 20>(g, Win{0, 3}, pv == 2 ? 20 : 42 + 1);
+      Outcome oc = attempt([&] {
+        mpq_class ex14 = rinteg(rmul(alpha(s14), alpha(t14)), pts), ex20 = rinteg(rmul(rmulx(alpha(s20), 1), alpha(t20)), pts);
+        mpq_class bf14 = val(BilinearForm{}(s14, t14)), lf14 = val(LinearForm{}(s14 * t14));
+        mpq_class bf20 = val(BilinearForm{X<1>{}, IdentityOperator{}}(s20, t20)), lf20 = val(LinearForm{X<1>{}}(s20 * t20));
+        if (bf14 != ex14 || bf20 != ex20) H.fail("bilinear", "high-order bilinear form differs from the exact integral");
+        if (lf14 != ex14 || lf20 != ex20) H.fail("linear", "linear form of a high-order product (29 / 42 coefficients) = " + lf14.get_str() + " / " + lf20.get_str() + ", exact " + ex14.get_str() + " / " + ex20.get_str());
+        if (ex14 != 0) H.nontriv();
+      });
+      if (oc.threw()) H.fail("linear:threw", oc.str());
+      H.cls("high-order");
+      H.end();
+    }
+}
+
 static void run(Harness &H) {
   large_cases(H);
+  high_order_cases(H);
   size_t n = 5;
   std::vector<std::string> fams = H.thorough() ? std::vector<std::string>{"nonuni", "far", "neg", "sym"} : std::vector<std::string>{"nonuni", "far", "sym"};
   for (auto fam : fams) {
